@@ -371,6 +371,10 @@ class ArrayExpr(SingletonExpr):
         """Whether this node observes a dependency's block grid."""
         return False
 
+    # Whether this node's chunks come out of unifying its operands' chunks
+    # (aligned Blockwise / Elemwise), see ``_slice_pushdown``.
+    _unifies_operand_chunks = False
+
     def _has_grid_sensitive_dependent(self, expr, dependents):
         for ref in dependents.get(expr._name, ()):
             node = ref()
@@ -451,6 +455,12 @@ class ArrayExpr(SingletonExpr):
             return None
         result = self._accept_slice(slice_expr)
         result = self._preserve_grid_contract(slice_expr, result, dependents)
+        if result is not None and self._unifies_operand_chunks and not _chunks_match(result.chunks, slice_expr.chunks):
+            # Slicing the operands and unifying their chunks again can settle
+            # on another layout than the sliced result advertises, and
+            # consumers were built against that one (block counts decide e.g.
+            # whether a contraction sums or squeezes).
+            return None
         if result is not None:
             # The push only proceeds when every other consumer is itself a slice
             # (checked above), so ``self`` is normally replaced outright by the
@@ -497,6 +507,10 @@ class ArrayExpr(SingletonExpr):
             return None
         result = self._accept_shuffle(shuffle_expr)
         result = self._preserve_grid_contract(shuffle_expr, result, dependents)
+        if result is not None and self._unifies_operand_chunks and not _chunks_match(result.chunks, shuffle_expr.chunks):
+            # As in ``_slice_pushdown``: unifying the taken operands again
+            # must not move the result off the chunks the take advertises.
+            return None
         if result is not None:
             # No other dependents (checked above), so ``self`` is fully
             # replaced: unlink so a transitive shuffle descends this same pass.
